@@ -120,7 +120,7 @@ def run(ctx, drv):
     ctx.nontrivial_rule = ("insertion histories (add/append/extend/+=list/+=single, lengths 0..40, 1-4 objectives on grids of 2-4 "
                            "values with 5% special doubles, any directions, 35% constrained, 12% re-offers of the same object); "
                            "exhaustive: all histories of length <= L over the 3x3 grid (2 objectives). non-trivial = history "
-                           "with >= 1 rejection and >= 1 eviction; distinct by canonical request line")
+                           "with >= 1 rejection and >= 1 eviction; distinct by canonical request line + the stand-alone filter nondominated() on its own stream (1-3 objectives, all-infeasible / mixed sets), directions re-declared on a used problem object, objective values that are exact ints next to the doubles they round to")
     reqs = []
     n = 3000 if ctx.quick() else 60000
     shared_dom = C.ParetoDominance()
